@@ -9,7 +9,9 @@ D111 == <<1, 1, 1, 1>>
 D120 == <<1, 1, 2, 0>>
 D210 == <<2, 1, 1, 0>>
 Dims2  == <<0, 1>>
-Masks2 == <<1, 2, 3>>          \* two state bits: Init, Step and both
+Masks2 == <<1, 8, 9>>          \* two state bits: Init (inside DataStateAll) and Fail (outside it), and both
+MasksIS == <<1, 2, 3>>         \* Init, Step and both
+MasksF == <<3, 8>>             \* Init|Step and Fail alone (merged: 11; 11 without 3: Fail alone)
 Clis2  == <<0, 1>>
 Clis3  == <<0, 1, 7>>
 Dest2  == <<D110, D111>>
@@ -27,8 +29,11 @@ NoSeq == <<>>
 Bound == Len(tab) <= MaxTab
 View  == <<bound, cycm, tab, cyc>>     \* obs is an observation, not state
 (* text front end: items over {left out, 0, 1, 2, 300, word} *)
-ItemsQ == {<<2>>, <<-1, 2>>, <<1, 2, 2>>, <<-1>>, <<0>>, <<BadField>>, <<2, -1, 1>>, <<300>>}
-ItemsT == ItemsQ \cup {<<-1, -1, 2>>, <<1, 1>>, <<-1, -1>>, <<2, 0, 1>>, <<1, BadField>>, <<255, 255, 255>>}
+(* every field may be left out at every position: leading (":2"), middle ("2::1"), trailing ("1::", "2:"), all (":") *)
+ItemsQ == {<<2>>, <<-1, 2>>, <<1, 2, 2>>, <<0>>, <<BadField>>, <<2, -1, 1>>, <<300>>,
+           <<1, -1, -1>>, <<-1, -1>>, <<2, -1>>}
+ItemsT == ItemsQ \cup {<<-1, -1, 2>>, <<1, 1>>, <<-1, -1, -1>>, <<2, 0, 1>>, <<1, BadField>>, <<255, 255, 255>>,
+                       <<-1, 2, -1>>, <<1, 2, -1>>, <<0, -1, -1>>}
 Gaps1 == {1}
 Gaps13 == {1, 3}
 Edge0 == {0}
